@@ -411,7 +411,9 @@ Next ==
          /\ \E k \in 0..(Chunk - 1) :
               LET cp == its[1] * Chunk + k IN
               /\ (k % MaxLen = 0 \/ cp \in Boundary) /\ IsScalar(cp)
-              /\ its' = <<cp>> /\ b' = <<34>> \o Utf8Enc(cp) \o <<34>>
+              /\ its' = <<cp>>
+              /\ b' = LET d == IF cp = 39 THEN 34 ELSE 39      \* a verbatim string: no escapes
+                      IN  <<64, d>> \o Utf8Enc(cp) \o <<d>>
 
 \* the body of a utf8-mode input, recovered from the container number and body length
 Utf8Body == LET c == its[1] n == its[2]
